@@ -67,6 +67,17 @@ def judge_bytes(ctx, data, klass, origin=None):
         if not (klass == 'truncate' and len(data) == 0):
             ctx.inconc('model accepts a %s mutant: %s' % (klass, data.hex()[:80]))
             return
+    if st == 'accept' and (ms == 'ok' or (ms == 'dontcare' and set(why.split('; ')) <= {'non-utf8 string', 'non-utf8 annots'})):
+        # whatever is accepted is read faithfully: encoding the decoded expression gives the accepted bytes back
+        from pytezos.michelson.forge import forge_micheline
+        ctx.count('accepted_inputs_re_encoded')
+        try:
+            again = forge_micheline(tree)
+        except Exception as ex:
+            again = ex
+        if again != data:
+            return ctx.violation('C05|accepted-bytes-do-not-re-encode-to-themselves|' + (why.split(';')[0][:30] if ms == 'dontcare' else 'ok'),
+                                 'bytes=%s decoded=%r re-encoded=%s' % (data.hex()[:120], tree, again.hex()[:120] if isinstance(again, bytes) else repr(again)[:120]), case)
     if ms == 'reject':
         if st == 'accept':
             ctx.violation('C05|accepts-invalid|' + why.split(' (')[0].split(' 0x')[0], 'bytes=%s decoded=%r why=%s' % (data.hex()[:120], tree, why), case)
